@@ -18,7 +18,7 @@ STAGES = {
 }
 ALLMECH = '{"PLAIN", "LOGIN", "CRAM-MD5", "XOAUTH2", "SCRAM-SHA-1", "SCRAM-SHA-256", "SCRAM-SHA-1-PLUS", "SCRAM-SHA-256-PLUS"}'
 STAGES['C14'] = {
-    'quick': [('honest-all-mechanisms', 'SaslHonest', dict(MECHS=ALLMECH, UCLASSES='{"ascii", "unicode", "comma", "eq", "both", "empty", "ctl"}',
+    'quick': [('honest-all-mechanisms', 'SaslHonest', dict(MECHS=ALLMECH, UCLASSES='{"ascii", "unicode", "comma", "eq", "both", "empty", "ctl", "fullwidth"}',
                                                           PCLASSES='{"ascii", "unicode", "comma", "empty", "ctl", "space", "huge"}', WRONGS='{"", "pass", "user"}',
                                                           TLSVERS='{"1.2", "1.3"}', RETRY='{FALSE}', ITERS='<<1, 2, 4096, 600>>',
                                                           SALTS='<<"sixteen", "one", "long", "zeros">>', SUFFIXES='<<"plain", "printable", "b64", "long">>', VIAS='{"smtp"}', ABORTS='{""}')),
@@ -28,7 +28,7 @@ STAGES['C14'] = {
               ('through-mail-client', 'SaslHonest', dict(MECHS=ALLMECH, UCLASSES='{"ascii", "unicode", "comma", "eq"}', PCLASSES='{"ascii", "unicode", "space"}', WRONGS='{"", "pass", "user"}',
                                                         TLSVERS='{"1.2", "1.3"}', RETRY='{FALSE}', ITERS='<<4096, 600>>', SALTS='<<"sixteen", "long">>',
                                                         SUFFIXES='<<"plain", "b64">>', VIAS='{"client", "custom"}', ABORTS='{""}'))],
-    'thorough': [('honest-all-mechanisms', 'SaslHonest', dict(MECHS=ALLMECH, UCLASSES='{"ascii", "unicode", "comma", "eq", "both", "empty", "ctl", "space", "long"}',
+    'thorough': [('honest-all-mechanisms', 'SaslHonest', dict(MECHS=ALLMECH, UCLASSES='{"ascii", "unicode", "comma", "eq", "both", "empty", "ctl", "space", "long", "fullwidth"}',
                                                              PCLASSES='{"ascii", "unicode", "comma", "eq", "both", "empty", "ctl", "space", "long"}', WRONGS='{"", "pass", "user"}',
                                                              TLSVERS='{"1.2", "1.3"}', RETRY='BOOLEAN', ITERS='<<1, 2, 4096, 20000, 600>>',
                                                              SALTS='<<"sixteen", "one", "long", "zeros">>', SUFFIXES='<<"plain", "printable", "b64", "long">>',
